@@ -249,8 +249,9 @@ func checkC13(c *Ctx) {
 	// relaying caches through HTTPTransfer: each fetched dump is restored into the cache it was requested for (C14 R14.2)
 	c.borrow("C14", func() {
 		c.c14Import()
+		c.c14Export() // … and the exporter serves every request that names a registered cache and carries the current hash (R14.1)
 		c.rangeVarCapturedByGo("R14.2", func(name string) bool { return strings.HasPrefix(name, "HTTPTransfer.") })
-	}, func(o *coreObl) (string, bool) { return "R13.7", o.Rule == "R14.2" })
+	}, func(o *coreObl) (string, bool) { return "R13.7", o.Rule == "R14.2" || o.Rule == "R14.1" })
 	// what Dump walks after an ExpireAll are the replacement entries: they keep key and value
 	for _, b := range backends {
 		c.replacedEntryKeeps(b, "R13.6", "K", "V")
